@@ -5,6 +5,7 @@ import (
 	"fmt"
 	"path/filepath"
 	"strings"
+	"sync"
 
 	"kvassverif/internal/core"
 )
@@ -75,7 +76,7 @@ type c12Case struct {
 	Shape    int    `json:"shape"`
 	Name     string `json:"name"`
 	Gzip     bool   `json:"gzip"`
-	Mode     string `json:"mode"`     // direct | tcp
+	Mode     string `json:"mode"` // direct | tcp
 	Assigned bool   `json:"assigned"`
 	Short    int    `json:"short"`    // Prometheus-side writer accepts at most this many bytes per Write (direct mode)
 	Chunking string `json:"chunking"` // all-splits | random | default
@@ -117,8 +118,79 @@ func c12Cases(tier string) []c12Case {
 	return cs
 }
 
+// runC12Parallel: several targets with different payloads and encodings scraped through one proxy at the
+// same time over a real HTTP hop (pooled gzip readers, parser workers and buffers are shared process-wide).
+func runC12Parallel(w *core.WorkerCtx, k int) *core.CaseResult {
+	r := core.NewRng(w.Seed, 0xC12B, uint64(k))
+	res := &core.CaseResult{Sig: fmt.Sprintf("parallel-%d", k), Nontrivial: true}
+	rg, err := newRig(filepath.Join(w.Scratch, fmt.Sprintf("c12p-%d", k)), "10s", "")
+	if err != nil {
+		res.Inconcl = "rig: " + err.Error()
+		return res
+	}
+	defer rg.close()
+	const n = 8
+	bodies := map[uint64][]byte{}
+	var hs []uint64
+	for i := 0; i < n; i++ {
+		h := uint64(100 + i)
+		hs = append(hs, h)
+		sh := c12Shapes[r.Intn(len(c12Shapes)-1)] // not the 8 MiB one
+		b := sh.Make(r)
+		if len(b) > 0 && r.Intn(2) == 0 { // make the payloads of equal shape distinguishable
+			b = append([]byte(fmt.Sprintf("marker_metric{target=\"%d\"} %d\n", h, i)), b...)
+		}
+		bodies[h] = b
+		rg.mt.set(fmt.Sprintf("t%d.example:9100", h), &bodyScript{Body: b, Gzip: r.Intn(2) == 0, ContentType: "text/plain; version=0.0.4"})
+	}
+	if err := rg.assign("j1", hs[:n/2]...); err != nil {
+		res.Inconcl = "assign: " + err.Error()
+		return res
+	}
+	rg.ensureSrv()
+	rounds := 3
+	type bad struct{ msg string }
+	var mu sync.Mutex
+	var bads []string
+	for round := 0; round < rounds; round++ {
+		var wg sync.WaitGroup
+		for _, h := range hs {
+			wg.Add(1)
+			go func(h uint64) {
+				defer wg.Done()
+				o := rg.scrapeTCP("j1", h)
+				msg := ""
+				switch {
+				case o.Status != 200 || o.Aborted:
+					msg = fmt.Sprintf("target %d: status %d aborted %v %s", h, o.Status, o.Aborted, o.ReadErr)
+				case !bytes.Equal(o.Body, bodies[h]):
+					msg = fmt.Sprintf("target %d: got %d bytes, served %d bytes, first difference at %d", h, len(o.Body), len(bodies[h]), firstDiff(o.Body, bodies[h]))
+				}
+				mu.Lock()
+				res.Execs++
+				if msg != "" {
+					bads = append(bads, msg)
+				}
+				mu.Unlock()
+			}(h)
+		}
+		wg.Wait()
+	}
+	res.AddStat("parallel_scrapes", int64(rounds*n))
+	if len(bads) > 0 {
+		res.Violate("C12/not-identical/concurrent-scrapes", "%d of %d concurrent scrapes differ, e.g. %s", len(bads), rounds*n, bads[0])
+		res.Witness = map[string]interface{}{"problems": bads}
+	}
+	return res
+}
+
+const c12ParallelCases = 12
+
 func runC12(w *core.WorkerCtx, idx int) *core.CaseResult {
 	cs := c12Cases(w.Tier)
+	if idx >= len(cs) {
+		return runC12Parallel(w, idx-len(cs))
+	}
 	c := cs[idx]
 	r := core.NewRng(w.Seed, 0xC12, uint64(idx))
 	res := &core.CaseResult{Sig: fmt.Sprintf("%s|gz%v|%s|asg%v|short%d|%s", c.Name, c.Gzip, c.Mode, c.Assigned, c.Short, c.Chunking), Nontrivial: true}
@@ -241,11 +313,11 @@ func init() {
 		ID:    "C12",
 		Level: "exploration",
 		Rule: "case = payload shape {empty, one line, no trailing newline, only newlines, comments/blanks, lines the statistics parser rejects (incl. binary), CRLF/unicode, generated, one line of 256 KiB-1, a newline exactly on the 64 KiB block boundary, 1 MiB, 8 MiB} x {identity, gzip} x Prometheus side {instrumented ResponseWriter with short writes of 1/7/4096 bytes, real net/http hop} x {assigned, not assigned to this shard} x chunking {every 2-way split point of the wire bytes + byte-by-byte, seed-determined random read sizes 1 B..128 KiB} x three content types; " +
-			"oracle = byte equality of what Prometheus received with the target's body after decompression, status 200, same Content-Type; runs from the -race binary (the parser calls back concurrently); " +
+			"plus 12 cases in which 8 targets with different payloads/encodings are scraped concurrently through one proxy over a real HTTP hop, three rounds each; oracle = byte equality of what Prometheus received with the target's body after decompression, status 200, same Content-Type; runs from the -race binary (the parser calls back concurrently); " +
 			"non-trivial = every case; distinct = (shape, encoding, mode, assigned, short-write size, chunking)",
-		Assumptions: []string{"targets are in-memory http.RoundTrippers installed in JobInfo.Cli; gzip bodies are produced with compress/gzip at default level"},
-		NumCases:    func(tier string) int { return len(c12Cases(tier)) },
-		Run:         runC12,
+		Assumptions:   []string{"targets are in-memory http.RoundTrippers installed in JobInfo.Cli; gzip bodies are produced with compress/gzip at default level"},
+		NumCases:      func(tier string) int { return len(c12Cases(tier)) + c12ParallelCases },
+		Run:           runC12,
 		MinNontrivial: 100,
 		CaseTimeout:   300e9,
 		Race:          true,
